@@ -143,6 +143,15 @@ func (t *target) Trim(n int) string {
 	return c
 }
 
+func (t *target) SoftDelete(restore bool) string {
+	if restore {
+		_, _, c := t.mutating(logical.UpdateOperation, "keys/"+t.name+"/soft-delete-restore", nil)
+		return c
+	}
+	_, _, c := t.mutating(logical.DeleteOperation, "keys/"+t.name+"/soft-delete", nil)
+	return c
+}
+
 func (t *target) Backup() (string, string) {
 	d, _, c := t.mutating(logical.ReadOperation, "backup/"+t.name, nil)
 	if c != "" {
